@@ -1,6 +1,7 @@
 package values
 
 import (
+	"fmt"
 	"reflect"
 	"sort"
 )
@@ -73,4 +74,38 @@ func (s sortableByProperty) Less(i, j int) bool {
 		return !s.nilFirst
 	}
 	return Less(a, b)
+}
+
+// SortedMapKeys returns the keys of a map in a deterministic order (Go's map
+// iteration order is random): numbers by value, strings lexically, anything
+// else by printed form.
+func SortedMapKeys(m reflect.Value) []reflect.Value {
+	keys := m.MapKeys()
+	sort.Sort(sortableKeys(keys))
+	return keys
+}
+
+type sortableKeys []reflect.Value
+
+func (s sortableKeys) Len() int      { return len(s) }
+func (s sortableKeys) Swap(i, j int) { s[i], s[j] = s[j], s[i] }
+func (s sortableKeys) Less(i, j int) bool {
+	a, b := s[i], s[j]
+	if a.Kind() == reflect.Interface {
+		a = a.Elem()
+	}
+	if b.Kind() == reflect.Interface {
+		b = b.Elem()
+	}
+	if !a.IsValid() || !b.IsValid() {
+		return !a.IsValid() && b.IsValid()
+	}
+	if a.Kind() == reflect.String && b.Kind() == reflect.String {
+		return a.String() < b.String()
+	}
+	ka, kb := a.Kind(), b.Kind()
+	if (isIntKind(ka) || isFloatKind(ka)) && (isIntKind(kb) || isFloatKind(kb)) {
+		return Less(a.Interface(), b.Interface())
+	}
+	return fmt.Sprint(a.Interface()) < fmt.Sprint(b.Interface())
 }
